@@ -95,8 +95,15 @@ class ContainerBase:
                 setattr(self, prop_name, copy.copy(new_value))
 
     def mk_copy(self, copy_node: bool = False) -> ContainerBase:
-        """Make a copy of self."""
+        """Make a copy of self.
+
+        The values of all container properties are copied, so that the copy does not share nested objects with self.
+        """
         copied = copy.copy(self)
+        for prop_name, prop in self.sorted_container_properties():
+            value = prop.get_actual_value(self)
+            if value is not None:
+                setattr(copied, prop_name, copy.deepcopy(value))
         if copy_node and self.node is not None:
             copied.node = xml_utils.copy_element(self.node)
         return copied
